@@ -1,4 +1,4 @@
-import TcheranVerif.Driver.Handlers
+import TcheranVerif.Driver.Gens2
 import TcheranVerif.Model.Geometry
 /-!
 # tvdriver — the model behind the line protocol
@@ -157,6 +157,7 @@ def handle (line : String) : String × String :=
   | ["san", fen] => sanHandle fen
   | "picker" :: rest => pickerHandle rest
   | ["search", mb, jobs] => searchHandle mb jobs
+  | ["verify", fen, played, best, infos] => verifyHandle fen played best infos
   | _ => bad
 
 partial def serveLoop (h : IO.FS.Stream) (out : IO.FS.Stream) : IO Unit := do
@@ -207,32 +208,6 @@ def genC07 (seed n : Nat) : IO Unit := do
     let occ : UInt64 := if dense == 0 then a else if dense == 1 then a &&& b else a ||| b
     out.putStrLn s!"rook\t{sq}\t{hex (BitVec.ofNat 64 occ.toNat)}"
     out.putStrLn s!"bishop\t{sq}\t{hex (BitVec.ofNat 64 occ.toNat)}"
-
-/-- positions: random legal placements plus playouts from the start position and from `roots` -/
-def genPositions (seed n : Nat) (roots : List String) : List Rules.Pos := Id.run do
-  let mut r := Rng.ofSeed seed
-  let mut acc : List Rules.Pos := []
-  let rootPos := (startFen :: roots).filterMap fun f => (readPosition f).map (·.pos)
-  -- one third: playouts
-  let mut i := 0
-  while acc.length < n / 3 do
-    let (r1, root) := r.pick rootPos
-    let (r2, len) := r1.below 80
-    let (r3, ps, _) := playout r2 root (len + 1)
-    r := r3
-    acc := (ps.drop (ps.length / 2)).take 12 ++ acc
-    i := i + 1
-  while acc.length < n do
-    let (r1, sparse) := r.below 3
-    let (r2, p) := randomLegal r1 (if sparse == 0 then 6 else if sparse == 1 then 14 else 28)
-    r := r2
-    acc := p :: acc
-  return acc.take n
-
-def readLines (path : String) : IO (List String) := do
-  if path == "-" then return []
-  let txt ← IO.FS.readFile path
-  return (txt.splitOn "\n").filter (fun l => l.trimAscii.toString ≠ "" && !l.startsWith "#")
 
 def genMoves (seed n : Nat) (rootsFile : String) : IO Unit := do
   let roots ← readLines rootsFile
@@ -379,6 +354,14 @@ def main (args : List String) : IO UInt32 := do
   | ["gen", "templates", seed, n] => genTemplates seed.toNat! n.toNat!; return 0
   | ["gen", "draws", seed, n, roots] => genDraws seed.toNat! n.toNat! roots; return 0
   | ["gen", "fen", seed, n, roots] => genFen seed.toNat! n.toNat! roots; return 0
+  | ["gen", "tt", seed, n, big] => genTT seed.toNat! n.toNat! (big == "1"); return 0
+  | ["gen", "limits", seed, n] => genLimits seed.toNat! n.toNat!; return 0
+  | ["gen", "eval", seed, n, roots] => genEval seed.toNat! n.toNat! roots; return 0
+  | ["gen", "see", seed, n, roots] => genTactical "see" seed.toNat! n.toNat! roots; return 0
+  | ["gen", "san", seed, n, roots] => genTactical "san" seed.toNat! n.toNat! roots; return 0
+  | ["gen", "picker", seed, n, roots] => genPicker seed.toNat! n.toNat! roots; return 0
+  | ["gen", "search", mode, seed, n, maxDepth, roots] =>
+    genSearch mode seed.toNat! n.toNat! maxDepth.toNat! roots; return 0
   | _ =>
     IO.eprintln "usage: tvdriver serve | gen <stream> <seed> <n> [roots-file]"
     return 2
